@@ -158,7 +158,9 @@ func runC03(c *core.Ctx) {
 	runC20(sub)
 	n := 0
 	for _, o := range sub.Obligations() {
-		if !strings.Contains(o.Key, "packet.Reader.") || (o.Rule != "C20-ERRCHK" && o.Rule != "C20-STICKY" && o.Rule != "C20-ZERO") {
+		// ... and the reader's constructor: the decoders call methods on its result without a nil test
+		isCtor := o.Rule == "C20-SHAPE" && strings.HasSuffix(o.Key, "#ctor") && strings.Contains(o.Key, "Reader")
+		if !isCtor && (!strings.Contains(o.Key, "packet.Reader.") || (o.Rule != "C20-ERRCHK" && o.Rule != "C20-STICKY" && o.Rule != "C20-ZERO")) {
 			continue
 		}
 		o.Key = o.Rule + ":" + o.Key
